@@ -16,7 +16,7 @@ import os
 import random
 import multiprocessing as mp
 from collections import Counter
-from harness import common, pysem, pygen
+from harness import common, pysem, pygen, pyconc
 from harness.props import c08
 common.import_repo()
 from numba_scfg.core.datastructures.ast_transforms import AST2SCFG, SCFG2AST  # noqa: E402
@@ -119,19 +119,29 @@ def _work(chunk):
         else:
             rec["lean"] = "differs"
             rec["fails"].append("lean-bisim: " + rep[2][:300])
-        fn = pysem.make_fn(src)
-        nfn = pysem.make_fn(text)
         newruns = []
-        for ds, segs, status_ in c08.paths(fn, len(params) - 1, 7):
-            rec["paths"] += 1
-            nsegs, nstatus = pysem.run_oracle(nfn, len(params) - 1, ds)
-            if status_ == "diverges" or nstatus == "diverges":
-                if status_ != nstatus:
-                    rec["fails"].append(f"cpython: divergence differs on {ds}")
-                continue
-            newruns.append((ds, nsegs, nstatus))
-            if pysem.canon_segments(segs) != pysem.canon_segments(nsegs) or status_ != nstatus:
-                rec["fails"].append(f"cpython: behaviour differs on decisions {ds}: {status_} vs {nstatus}")
+        if pyconc.is_concrete(src):
+            f0 = pyconc.source_fn4(src)
+            f1 = pyconc.source_fn4(text)
+            for x, y in pyconc.GRID:
+                rec["paths"] += 1
+                a, b = pyconc.run_concrete(f0, x, y), pyconc.run_concrete(f1, x, y)
+                if a != b:
+                    rec["fails"].append(f"cpython: f({x}, {y}) gives {a[0]} / {len(a[1])} calls, the regenerated function {b[0]} / {len(b[1])} calls")
+                    break
+        else:
+            fn = pysem.make_fn(src)
+            nfn = pysem.make_fn(text)
+            for ds, segs, status_ in c08.paths(fn, len(params) - 1, 7):
+                rec["paths"] += 1
+                nsegs, nstatus = pysem.run_oracle(nfn, len(params) - 1, ds)
+                if status_ == "diverges" or nstatus == "diverges":
+                    if status_ != nstatus:
+                        rec["fails"].append(f"cpython: divergence differs on {ds}")
+                    continue
+                newruns.append((ds, nsegs, nstatus))
+                if pysem.canon_segments(segs) != pysem.canon_segments(nsegs) or status_ != nstatus:
+                    rec["fails"].append(f"cpython: behaviour differs on decisions {ds}: {status_} vs {nstatus}")
         if rec["fails"]:
             dev = "other"
             for name, fp, fh in (("for-target-preset", 1, 0), ("eager-hoisting", 0, 1), ("for-target-preset+eager-hoisting", 1, 1)):
@@ -162,6 +172,8 @@ def programs(tier, seed):
     progs = list(pygen.HAND)
     for _ in range(n):
         progs.append(pygen.gen_program(rng, rng.randint(3, 10), depth=rng.choice([2, 3, 3, 4]), start_simple=rng.random() < 0.9))
+    for _ in range(n // 2):
+        progs.append(pygen.gen_concrete(rng, rng.randint(3, 9), depth=rng.choice([2, 3])))
     return progs
 
 
